@@ -1,5 +1,6 @@
 """C06: MADE conditioners are strictly autoregressive for every architecture and weight."""
 import itertools
+import math
 
 import torch
 
@@ -252,6 +253,36 @@ def consequences(ck, seed, tier):
                     ck.finding("MADEMoG:conditional-depends-on-later-input",
                                "mixture parameters of feature <= %d changed with input %d" % (j, j),
                                {"search": "mog-factor", "F": F, "input": j, "seed": seed})
+        # the factorised density itself: log_prob = sum over features of one-dimensional mixture log-densities whose weights sum to
+        # one PER FEATURE - recomputed here from the network's outputs; also for inputs with an extra leading batch dimension
+        # ([S, B, D], which log_prob supports by reshaping): each row's value is that row's
+        made_ = d._made
+        gx = torch.Generator(); gx.manual_seed(seed + 7 * F)
+        for shape in ([4, F], [2, 3, F]):
+            xs = torch.randn(shape, generator=gx)
+            cs = None
+            ck.case(("mog-density", F, len(shape)), nontrivial=F >= 2)
+            torch.manual_seed(seed + 100 + F)
+            du = MADEMoG(features=F, hidden_features=6, context_features=None, num_blocks=1, num_mixture_components=3).eval()
+            with torch.no_grad():
+                for prm in du.parameters():
+                    prm.add_(torch.randn(prm.shape, generator=gx) * 0.5)
+                got = attempt(du._made.log_prob, xs)
+                flat_x = xs.reshape(-1, F)
+                o = du._made(flat_x).reshape(flat_x.shape[0], F, 3, 3)
+                lw = torch.log_softmax(o[..., 0], dim=-1)
+                sd = torch.nn.functional.softplus(o[..., 2]) + du._made.epsilon
+                comp = lw - 0.5 * (math.log(2 * math.pi) + 2 * torch.log(sd) + ((flat_x[..., None] - o[..., 1]) / sd) ** 2)
+                ref = torch.logsumexp(comp, dim=-1).sum(-1).reshape(shape[:-1])
+            if got[0] != "ok":
+                if len(shape) == 2:
+                    ck.finding("MADEMoG:log_prob-fails", "%s %s" % (got[1], got[2]), {"search": "mog-density", "F": F, "shape": shape, "seed": seed})
+                continue
+            if got[1].shape != ref.shape or not torch.allclose(got[1], ref, atol=1e-4, rtol=1e-4):
+                ck.finding("MADEMoG:log_prob-is-not-the-sum-of-its-conditionals",
+                           "inputs of shape %s: log_prob differs from the sum of the per-feature mixture log-densities by %g"
+                           % (shape, float((got[1] - ref).abs().max()) if got[1].shape == ref.shape else float("nan")),
+                           {"search": "mog-density", "F": F, "shape": shape, "seed": seed})
 
 
 def replay(payload):
